@@ -869,7 +869,7 @@ func c13RaceBuild() string {
 	if root == "" {
 		root = "/verif"
 	}
-	bin := filepath.Join(root, "bin", "harness_C13_race")
+	bin := filepath.Join(binDir(), "harness_C13_race")
 	build := exec.Command("go", "build", "-race", "-tags", "verif,c13", "-o", bin, ".")
 	build.Dir = filepath.Join(root, "harness")
 	build.Env = append(os.Environ(), "GOWORK=off", "GOFLAGS=-mod=mod", "GOPROXY=off", "GOSUMDB=off", "GOTOOLCHAIN=local", "CGO_CFLAGS=-w -O2 -g")
